@@ -1318,6 +1318,24 @@ def module_attr(I, mod: ModuleVal, name: str):
         v = I.module_global(sub, name)
         if v is not _MISSING:
             return v
+    if mod.name == 'os':
+        import os as _os
+        if name == 'path':
+            return ModuleVal('os.path')
+        if name in ('SEEK_END', 'SEEK_SET', 'SEEK_CUR', 'sep'):
+            return getattr(_os, name)
+    if mod.name == 'os.path':
+        import os.path as _p
+        if name in ('join', 'split', 'normpath', 'basename', 'dirname', 'splitext'):
+            def pathfn(*a, _n=name):
+                if all(isinstance(x, str) for x in a):
+                    r = getattr(_p, _n)(*a)
+                    return r
+                m = getattr(I, 'path_model', None)
+                if m is not None:
+                    return m(I, _n, *a)
+                raise Unsupported(f'os.path.{_n} on symbolic strings')
+            return Builtin('os.path.' + name, pathfn)
     if mod.name == 'inspect' and name == 'isgenerator':
         return Builtin('inspect.isgenerator', lambda v: isinstance(v, GenVal))
     if mod.name == 'operator':
